@@ -19,6 +19,10 @@ pub fn gen(seed: u64, tier: Tier) -> ScenarioSpec {
     rec.metadata = match rng.below(20) {
         0..=2 => None,
         3 => Some(vec![]),
+        7 => {
+            let n = 100 + rng.usize_below(300);
+            Some(gen::gen_many_maps(&mut rng, n))
+        }
         4..=6 => {
             let d = 1 + rng.below(if tier == Tier::Thorough { 64 } else { 40 }) as u32;
             Some(gen::gen_chain(&mut rng, d))
@@ -63,6 +67,10 @@ fn tree_stats(t: &Tree, depth: u32, max_depth: &mut u32, long: &mut bool, multib
     }
 }
 
+fn count_maps(t: &[(String, Node)]) -> usize {
+    t.iter().map(|(_, n)| if let Node::Map(m) = n { 1 + count_maps(m) } else { 0 }).sum()
+}
+
 pub fn run(spec: &ScenarioSpec, ctx: &mut Ctx) -> Result<(), Violation> {
     let m = recorder::build(&spec.recorder);
     shape_of_model(ctx, &m, spec);
@@ -74,6 +82,7 @@ pub fn run(spec: &ScenarioSpec, ctx: &mut Ctx) -> Result<(), Violation> {
     ctx.shape("mflags", long as u64 | (mb as u64) << 1 | (neg as u64) << 2);
     ctx.shape("comp", spec.compression as u64);
     ctx.probe_if(md >= 32, "metadata nested 32+ levels");
+    ctx.probe_if(count_maps(m.metadata.as_deref().unwrap_or(&[])) > 128, "more than 128 maps in one metadata tree");
     ctx.probe_if(long, "metadata string of 200+ bytes");
     ctx.probe_if(mb, "multi-byte UTF-8 in metadata");
     ctx.probe_if(neg, "negative int32 in metadata");
@@ -114,14 +123,16 @@ pub fn run(spec: &ScenarioSpec, ctx: &mut Ctx) -> Result<(), Violation> {
             ctx.check();
         }
     }
-    let mut r2 = read_slpp(&wz.data, &spec.stream2, false);
-    note_read(ctx, &mut r2);
-    let g2 = expect_ok(P, "peppi::read", r2.res)?;
-    let got2 = json_of(&g2.metadata);
-    if got2 != want {
-        return Err(Violation::new(P, "field-mismatch", "metadata(.slpp)", format!("after .slpp {} but the recorder wrote {}", crate::report::short(&got2, 160), crate::report::short(&want, 160))));
+    for skip in [false, true] {
+        let mut r2 = read_slpp(&wz.data, &spec.stream2, skip);
+        note_read(ctx, &mut r2);
+        let g2 = expect_ok(P, if skip { "peppi::read(skip_frames)" } else { "peppi::read" }, r2.res)?;
+        let got2 = json_of(&g2.metadata);
+        if got2 != want {
+            return Err(Violation::new(P, "field-mismatch", if skip { "metadata(.slpp, skip_frames)" } else { "metadata(.slpp)" }, format!("after .slpp {} but the recorder wrote {}", crate::report::short(&got2, 160), crate::report::short(&want, 160))));
+        }
+        ctx.check();
     }
-    ctx.check();
     ctx.rep.nontrivial = m.metadata.as_ref().map_or(true, |t| !t.is_empty());
     Ok(())
 }
